@@ -516,6 +516,10 @@ func IsDefault(f *Field, v int, val Node) bool {
 type dec struct {
 	in  []byte
 	pos int
+	// lenient makes the decoder accept what the kbin.Reader documents as accepted
+	// although the protocol forbids it (see Scan).
+	lenient     bool
+	maxTagCount uint64
 }
 
 func (d *dec) need(n int) error {
@@ -541,6 +545,25 @@ func (d *dec) uvar(bits uint, max int) (uint64, error) {
 	}
 	d.pos += n
 	return v, nil
+}
+
+// Scan walks hostile bytes the way the kmsg readers are documented to walk them, up
+// to the first point where they give up: a null length on a non-nullable bytes field
+// or array reads as empty (kbin.Reader.Bytes: "we return an empty byte slice for
+// null"), a nullable-struct marker other than -1 means present, tags may repeat and
+// come in any order, a tagged field's buffer may have left-over bytes, a negative
+// varint-string length reads as "". It returns the largest tag count read, which is
+// the number of iterations a tag loop performs no matter how short the input is.
+func Scan(s *Struct, version int, in []byte) (maxTagCount uint64, err error) {
+	d := &dec{in: in, lenient: true}
+	if s.WithVersionField {
+		if len(in) < 2 {
+			return 0, errShort
+		}
+		version = int(int16(binary.BigEndian.Uint16(in)))
+	}
+	_, err = d.structBody(s, version)
+	return d.maxTagCount, err
 }
 
 // Decode decodes the body of struct s at the given version with the reference
@@ -588,6 +611,12 @@ func (d *dec) structBody(s *Struct, v int) (*Rec, error) {
 	if err != nil {
 		return nil, fmt.Errorf("%s tag count: %w", s.Name, err)
 	}
+	if n > d.maxTagCount {
+		d.maxTagCount = n
+	}
+	if d.lenient && n > uint64(len(d.in)) {
+		return nil, errShort // the loop spins n times, but nothing more is parsed
+	}
 	known := map[uint32]*Field{}
 	for _, f := range s.Tags() {
 		if f.Present(s, v) {
@@ -600,7 +629,7 @@ func (d *dec) structBody(s *Struct, v int) (*Rec, error) {
 		if err != nil {
 			return nil, fmt.Errorf("%s tag key: %w", s.Name, err)
 		}
-		if int64(k) <= prev {
+		if int64(k) <= prev && !d.lenient {
 			return nil, fmt.Errorf("%s: tag %d after tag %d: tags must be strictly ascending", s.Name, k, prev)
 		}
 		prev = int64(k)
@@ -613,12 +642,15 @@ func (d *dec) structBody(s *Struct, v int) (*Rec, error) {
 			return nil, fmt.Errorf("%s tag %d data: %w", s.Name, k, err)
 		}
 		if f, ok := known[uint32(k)]; ok {
-			sd := &dec{in: data}
+			sd := &dec{in: data, lenient: d.lenient}
 			val, err := sd.value(f.Type, v, true)
+			if sd.maxTagCount > d.maxTagCount {
+				d.maxTagCount = sd.maxTagCount
+			}
 			if err != nil {
 				return nil, fmt.Errorf("%s.%s (tag %d): %w", s.Name, f.Name, k, err)
 			}
-			if sd.pos != len(data) {
+			if sd.pos != len(data) && !d.lenient {
 				return nil, fmt.Errorf("%s.%s (tag %d): %d of %d bytes consumed", s.Name, f.Name, k, sd.pos, len(data))
 			}
 			r.Set(f.Name, val)
@@ -734,6 +766,9 @@ func (d *dec) value(t *Type, v int, flex bool) (Node, error) {
 		}
 		if null {
 			if !t.Nullable(v) {
+				if d.lenient && t.Kind == KBytes && n <= 0 && (flex || n == -1) {
+					return []byte{}, nil
+				}
 				return nil, fmt.Errorf("null %s not allowed at version %d", t.Kind, v)
 			}
 			return Null{}, nil
@@ -754,6 +789,9 @@ func (d *dec) value(t *Type, v int, flex bool) (Node, error) {
 		n := unzig(u)
 		if n < 0 {
 			if t.Kind == KVarintString {
+				if d.lenient {
+					return "", nil
+				}
 				return nil, errors.New("negative varint-string length")
 			}
 			return Null{}, nil
@@ -776,6 +814,9 @@ func (d *dec) value(t *Type, v int, flex bool) (Node, error) {
 			}
 			n = int(unzig(u))
 			if n < 0 {
+				if d.lenient {
+					return List{}, nil
+				}
 				return nil, errors.New("negative varint array length")
 			}
 		} else {
@@ -783,9 +824,15 @@ func (d *dec) value(t *Type, v int, flex bool) (Node, error) {
 			if n, null, err = d.length(KArray, flex); err != nil {
 				return nil, err
 			}
+			if d.lenient && flex && n >= 1<<31 {
+				null = true // CompactArrayLen: int32(uvarint)-1 wraps to a negative length
+			}
 		}
 		if null {
 			if !t.Nullable(v) {
+				if d.lenient {
+					return List{}, nil
+				}
 				return nil, fmt.Errorf("null array not allowed at version %d", v)
 			}
 			return Null{}, nil
@@ -813,7 +860,9 @@ func (d *dec) value(t *Type, v int, flex bool) (Node, error) {
 				return Null{}, nil
 			case 1:
 			default:
-				return nil, fmt.Errorf("nullable struct marker %d", int8(b[0]))
+				if !d.lenient {
+					return nil, fmt.Errorf("nullable struct marker %d", int8(b[0]))
+				}
 			}
 		}
 		return d.structBody(t.Struct, v)
